@@ -25,6 +25,8 @@ class ScriptError(Exception):
 class Runaway(Exception):
     """raised by the harness once a case has made more than TW_LIMIT calls of _try_waiter (a livelock of the code under test)"""
 
+TW_RUN_BUDGET = 3 * 10 ** 6      # _try_waiter calls in one whole run (clean: quick 1.5 * 10**5, thorough about 10**6); beyond it, or after 20
+                                 # cases that ran away, the remaining cases are not executed
 TW_LIMIT = 1000                  # legitimate cases of the generators stay below 100
 
 class _FakeThread:
@@ -617,6 +619,8 @@ class C08(Check):
         import pox.lib.revent as revent
         self.pox_core, self.revent = pox.core, revent
         self.ncases = 0
+        self.total_tw = 0
+        self.runaways = 0
         self._unreadable = set()      # cases in which the core's private representation could not be read (compared without it)
 
     def translate(self):
@@ -1078,9 +1082,14 @@ class C08(Check):
         if self.ncases % 100 == 0:
             gc.collect(1)                     # fresh cores hold a pipe pair each until collected; young generations only, the
             self.banner_sink.seek(0); self.banner_sink.truncate()      # retained results are not rescanned
+        if self.total_tw > TW_RUN_BUDGET or self.runaways >= 20:  # budget counted in steps of the code under test, not in seconds
+            return {"abandoned": True}
         with contextlib.redirect_stdout(self.banner_sink):      # banner, autoBindEvents warnings
-            r = Env(self, case).run()
-        if r["pending"] is None: self._unreadable.add(id(case))
+            env = Env(self, case)
+            r = env.run()
+        self.total_tw += env.tw_calls
+        if r.get("runaway"): self.runaways += 1
+        if r.get("pending") is None: self._unreadable.add(id(case))
         return r
 
     def model_request(self, case):
@@ -1105,6 +1114,7 @@ class C08(Check):
                 "ops": [act(a) if a["a"] != "has" else {"a": "release", "k": 10 ** 6} for a in case["ops"]]})
 
     def impl_view(self, case, obs):
+        if obs.get("abandoned"): return obs
         segs = segments(obs["log"], obs["marks"])
         segs = [[e for e in s if not e[0].startswith("_")] for s in segs]
 
@@ -1133,6 +1143,8 @@ class C08(Check):
 
     # ------------------------------------------------------------------ the property itself, on the real core's observables
     def oracle(self, case, obs):
+        if obs.get("abandoned"):
+            return "runaway:run-abandoned | the run had already made more than %d _try_waiter calls or 20 cases had run away; this case was not executed" % TW_RUN_BUDGET
         log, marks = obs["log"], obs["marks"]
         decls = {d[0]: d for d in obs["decls"]}
         ops = case["ops"]
@@ -1257,6 +1269,7 @@ class C08(Check):
         return failure.split(" | ")[0]
 
     def nontrivial(self, case, obs):
+        if obs.get("abandoned"): return False
         log, marks = obs["log"], obs["marks"]
         decl_op = {d[0]: d[3] for d in obs["decls"]}
         pos_op = []
